@@ -14,7 +14,7 @@ Definition print_char (utf8 : bool) (c : N) : list byte :=
   match assoc_esc c print_escapes with
   | Some l => [92; l]
   | None =>
-      if utf8 || ((32 <=? c) && (c <=? 126)) then utf8_encode_char c
+      if (utf8 && (32 <=? c)) || ((32 <=? c) && (c <=? 126)) then utf8_encode_char c
       else 92 :: 117 :: hex4 c
   end.
 Definition print_string (utf8 : bool) (s : str) : list byte :=
